@@ -219,30 +219,42 @@ func specOnce() seqmc.Spec {
 		}
 	}
 	notis = append(notis, noti{ups: [][]string{{"a"}, {"a", "b"}, {"b"}}}, noti{ups: [][]string{{"a"}}, dels: [][]string{{"a", "b"}, {"b", "a"}}})
-	return seqmc.Spec{Name: "once per notification: clients with 1-2 paths x notifications with 1-3 updates/deletes", N: len(sets) * len(notis), Run: func(i int) (string, bool, []seqmc.Violation) {
+	// every notification plain, below a prefix, and as an atomic group below a prefix
+	const variants = 3
+	return seqmc.Spec{Name: "once per notification: clients with 1-2 paths x notifications with 1-3 updates/deletes x {plain, prefixed, atomic}", N: len(sets) * len(notis) * variants, Run: func(i int) (string, bool, []seqmc.Violation) {
+		variant := i % variants
+		i /= variants
 		set, nt := sets[i/len(notis)], notis[i%len(notis)]
+		var prefix []string
+		if variant > 0 {
+			prefix = []string{"a"}
+		}
+		full := func(p []string) []string { return append(append([]string{}, prefix...), p...) }
 		m := match.New()
 		c, other := &counter{}, &counter{}
 		for _, q := range set {
 			m.AddQuery(q, c)
 			m.AddQuery(q, other)
 		}
-		n := &pb.Notification{Timestamp: 1}
+		n := &pb.Notification{Timestamp: 1, Atomic: variant == 2}
+		if variant > 0 {
+			n.Prefix = mkp("", prefix)
+		}
 		want := false
 		for _, p := range nt.ups {
 			n.Update = append(n.Update, &pb.Update{Path: mkp("", p)})
 			for _, q := range set {
-				want = want || rel(q, p)
+				want = want || rel(q, full(p))
 			}
 		}
 		for _, p := range nt.dels {
 			n.Delete = append(n.Delete, mkp("", p))
 			for _, q := range set {
-				want = want || rel(q, p)
+				want = want || rel(q, full(p))
 			}
 		}
-		subscribe.UpdateNotification(m, n, n, nil)
-		desc := fmt.Sprintf("queries=%v updates=%v deletes=%v", set, nt.ups, nt.dels)
+		subscribe.UpdateNotification(m, n, n, append([]string{}, prefix...))
+		desc := fmt.Sprintf("queries=%v prefix=%v atomic=%v updates=%v deletes=%v", set, prefix, n.Atomic, nt.ups, nt.dels)
 		if c.n > 1 || other.n > 1 {
 			return desc, true, vio("more-than-once", "one notification was offered %d times to a subscriber (%s)", c.n, desc)
 		}
